@@ -13,6 +13,7 @@
 From Coq Require Import String.
 Require Import V.Base.MachineInt.
 Require Import V.Generated.GenConsts.
+Require Import V.Generated.GenCommands.
 Require Import V.Model.LogBase.
 Require Import V.Model.Broadcast.
 Require Import V.Model.BroadcastShow.
@@ -47,6 +48,16 @@ Example C08_known_types :
      CMD_ResponseOnCounterReady; 3849; CMD_ResponseOnClientTimeout] = true /\
   forallb (fun t => negb (known_type t)) [0; 15; 100; 101; 3840; 3851; -2] = true.
 Proof. split; reflexivity. Qed.
+
+(* K1: known_type (the event codes CopyBroadcastReceiver::receive can turn into an AeronCommand without hitting
+   from_command_id's unreachable!()) agrees, on every id of the scanned range -65536 .. 65536, with what the compiled
+   from_command_id did (Generated/GenCommands.v, the table property C14 proves the dispatch of DriverListenerAdapter from) *)
+Definition known_scan_step (st : Z * bool) : Z * bool :=
+  let '(id, ok) := st in
+  (id + 1, ok && Bool.eqb (known_type id) (existsb (fun r => fst r =? id) from_id_rows)).
+Example C08_known_type_scan :
+  Z.iter (from_id_scan_hi - from_id_scan_lo + 1) known_scan_step (from_id_scan_lo, true) = (from_id_scan_hi + 1, true).
+Proof. vm_compute. reflexivity. Qed.
 
 (* The model refines the lossy channel on every history: same results, same lapped counts, same errors. *)
 Theorem C08_refines : forall cap k m hv c0 pre h,
@@ -275,7 +286,12 @@ Theorem C08_interleaved : forall cap k m hv c0 pre msgs nrecv sched,
   h_s g = run_schedule m W64 hv cap (init_cstate cap c0 pre msgs nrecv) sched /\
   (h_in g = false ->
    exists ann i lost, map fst ann = r_out (c_rx (h_s g)) /\
-     jst (transmitted_pre cap pre ++ msgs) (Nat.pred (length (transmitted_pre cap pre))) ann i lost).
+     jst (transmitted_pre cap pre ++ msgs) (Nat.pred (length (transmitted_pre cap pre))) ann i lost /\
+     (* drained (the interleaved C08_drained): the receiver is between two receives, a receive starting now would return 0
+        messages (tail counter <= next_record), no loss report is pending: every message whose transmit has completed
+        (h_ch g) has been delivered or was skipped with a report *)
+     (r_pc (c_rx (h_s g)) = RIdle -> c_tail (h_ch g) <= next_record (r_rx (c_rx (h_s g))) -> lost = false ->
+      (length (allmsgs (h_ch g)) <= i)%nat)).
 Proof.
   intros cap k m hv c0 pre msgs nrecv sched Hc Hk OK g.
   destruct (interleaved cap k Hc Hk m hv W64 ltac:(discriminate) _ _ c0 pre msgs nrecv sched OK eq_refl eq_refl) as [E J].
@@ -289,7 +305,9 @@ Theorem C08_interleaved_repaired : forall cap k m hv c0 pre msgs nrecv sched,
   let g := hrun cap m hv W64R (hinit cap c0 pre msgs nrecv) sched in
   h_s g = run_schedule m W64R hv cap (init_cstate cap c0 pre msgs nrecv) sched /\
   exists ann i lost, map fst ann = r_out (c_rx (h_s g)) /\
-    jst (transmitted_pre cap pre ++ msgs) (Nat.pred (length (transmitted_pre cap pre))) ann i lost.
+    jst (transmitted_pre cap pre ++ msgs) (Nat.pred (length (transmitted_pre cap pre))) ann i lost /\
+    (r_pc (c_rx (h_s g)) = RIdle -> c_tail (h_ch g) <= next_record (r_rx (c_rx (h_s g))) -> lost = false ->
+     (length (allmsgs (h_ch g)) <= i)%nat).
 Proof.
   intros cap k m hv c0 pre msgs nrecv sched Hc Hk OK g.
   destruct (interleaved cap k Hc Hk m hv W64R ltac:(discriminate) _ _ c0 pre msgs nrecv sched OK eq_refl eq_refl) as [E J].
@@ -304,6 +322,14 @@ Theorem C08_interleaved_order : forall all i0 ann i lost,
 Proof. intros all i0 ann i lost J. rewrite <- dels_handed. exact (jst_order all i0 ann i lost J). Qed.
 Print Assumptions C08_interleaved_order.
 
+(* the interleaved C08_complete: as long as no error has been returned nothing is skipped - the events handed to the
+   handler are exactly the messages number i0 .. i-1, in order *)
+Theorem C08_interleaved_complete : forall all i0 ann i lost,
+  jst all i0 ann i lost -> (forall e j, ~ In (RErr e, j) ann) ->
+  lost = false /\ handed (map fst ann) = firstn (i - i0) (skipn i0 all).
+Proof. intros all i0 ann i lost J NE. rewrite <- dels_handed. exact (jst_complete all i0 ann i lost J NE). Qed.
+Print Assumptions C08_interleaved_complete.
+
 (* C08_seqlock of DESIGN.md for the repaired code, every schedule: every message handed to the handler is byte-identical
    to one of the transmitted messages.  (C08_seqlock_partial above is the statement for the code as found.) *)
 Theorem C08_seqlock : forall cap k m hv c0 pre msgs nrecv sched,
@@ -314,7 +340,7 @@ Theorem C08_seqlock : forall cap k m hv c0 pre msgs nrecv sched,
   subseq (handed (r_out (c_rx s))) (transmitted_pre cap pre ++ msgs).
 Proof.
   intros cap k m hv c0 pre msgs nrecv sched Hc Hk OK s.
-  destruct (C08_interleaved_repaired cap k m hv c0 pre msgs nrecv sched Hc Hk OK) as [E (ann & i & lost & Ea & J)].
+  destruct (C08_interleaved_repaired cap k m hv c0 pre msgs nrecv sched Hc Hk OK) as [E (ann & i & lost & Ea & J & _)].
   cbv zeta in E. unfold s. rewrite <- E, <- Ea.
   pose proof (C08_interleaved_order _ _ _ _ _ J) as Sub. split; [|exact Sub].
   apply Forall_forall. intros res Hres. destruct res; auto.
